@@ -36,6 +36,10 @@ CHECKS = {
          "Family S: main plus 1..3 functions over the product of call-graph shapes (chains, fan-out, repeated calls, diamonds, self-recursion) x per-function options (arity 0..2, returns or prints, 6 body skeletons, input ecall, frame slot order, padding, second saved register): every member is executed by the reference interpreter under the convention monitor on every environment answer in {-1,0,1,2} x 2 register fills (sp/ra/saved registers restored from the own frame, only defined registers read, nothing caller-saved alive across call/ecall, every computed value read, every instruction executed) and must then draw zero diagnostics from the whole pipeline (parse errors, CFG errors, all eleven lints).",
          "Trusted: generator + monitor (a member the monitor rejects fails the run as a machinery class; members with code no explored input reaches are left out and counted). Conforming idioms outside the grammar (frame pointer, stack-passed arguments, tail calls) are not covered.",
          "DESIGN.md 3 C04"),
+ "C05": ("bounded-exhaustive enumeration of (clean base program x violation class x injection site); oracle: expected error code exactly on the offending operand/instruction known by construction, violation confirmed dynamically by the convention monitor",
+         "Every 17th (quick) / 2nd (thorough) program of the quick S family x 14 violation classes (saved register / sp / ra not restored, temporary read after a call, register never assigned, dead assignment, write to zero, stack access at or above entry sp, instruction in .data, ecall number from memory, code after an unconditional jump, jump to a function, fall-through into a function, function on the first line) x up to 10 admissible sites: the injected program must draw a diagnostic of the class's code whose raw range is exactly the offending operand or instruction; for dynamic classes the monitor must first observe the violation on an explored execution.",
+         "Trusted: injection sites computed on the harness AST; single injections into clean bases. Accepted designations are listed per class in DESIGN.md (implicit ra -> mnemonic; unbalanced sp -> any sp-writing instruction of the function).",
+         "DESIGN.md 3 C05"),
  "C06": ("bounded-exhaustive enumeration of hostile inputs (strings, token sequences, mutations, include graphs x reader fault sequences, scaled repetitions, CLI modes) with crash/hang attribution per case in worker subprocesses",
          "Complete enumeration, in a release and an overflow-checked build, of: all strings over a 20-character alphabet up to length 3/4 through RVParser::run and length 4/5 through lexer+parser; all token sequences up to length 2/3 over 57 tokens; every single-token deletion/duplication/replacement of 17/27 seed programs; all 512 include graphs on 3 files x every reader-answer sequence with <= 1/2 faults; every unit string/token repeated 1000/20000(/200000) times (stack depth, growth) and 14 statement kinds repeated 250/1000(/2000) times through the full pipeline; ~600 on-disk cases (include cycles, missing/unreadable files, wide characters) through every output mode of the dev and release rva binaries. A panic is caught in process; an abort, stack overflow, OOM or hang kills the worker and is attributed to the announced case.",
          "Termination is decided by work bounds (pass sweeps <= 4*nodes+32, <= 64 import requests) and wall watchdogs (10 s CLI, 120 s per case); polynomial time is checked as absolute envelopes at three scales, not proved.",
